@@ -25,7 +25,7 @@ def words (s : String) : List String := (s.splitOn " ").filter (· ≠ "")
 def fmtErr : Err → String
   | .full => "err Full" | .oob => "err OutOfBounds" | .type => "err Type" | .value => "err Value"
   | .noPos => "err NoPos" | .noEmpty => "err NoEmpty" | .script => "err Script" | .key => "err Key"
-  | .index => "err Index"
+  | .index => "err Index" | .noNode => "err NoNode"
 
 def fmtRes : Res → String
   | .ok => "ok"
@@ -179,7 +179,9 @@ def gridLine (g : Grid) (hex : Bool) (nag : Nat) (nc : NCache) (hc : HCache) (ws
   | "clc" :: k :: rest => clc k rest
   | "iclc" :: k :: rest => clc k rest
   | [op, x, y, m, ic, r] =>
-    if hex then bad else
+    -- `get_neighborhood_mask` on a hex grid passes four arguments to the three-argument hex `get_neighborhood`: TypeError
+    if hex then (if op = "nmask" && (x.toInt?.isSome && y.toInt?.isSome && (bool? m).isSome && (bool? ic).isSome && r.toNat?.isSome)
+                 then (keep, "err Type") else bad) else
     match x.toInt?, y.toInt?, bool? m, bool? ic, r.toNat? with
     | some x, some y, some m, some ic, some r =>
       if op = "nbhd" || op = "inbhd" || op = "nbrs" || op = "inbrs" || op = "nmask" then
@@ -197,11 +199,13 @@ def gridLine (g : Grid) (hex : Bool) (nag : Nat) (nc : NCache) (hc : HCache) (ws
     if !hex then bad else
     match x.toInt?, y.toInt?, bool? ic, r.toNat? with
     | some x, some y, some ic, some r =>
-      if !inGridB g (x, y) then bad
-      else if op = "hnbhd" || op = "ihnbhd" || op = "hnbrs" || op = "ihnbrs" then
+      if op = "hnbhd" || op = "ihnbhd" || op = "hnbrs" || op = "ihnbrs" then
         let (hc', cells) := getHexNbhd g.dim hc { pos := (x, y), ic := ic, r := r }
         let st := St.grid g hex nag nc hc'
-        if op = "hnbhd" || op = "ihnbhd" then (st, sp (fmtCoords cells)) else (st, sp (fmtIds (cellsContents g cells)))
+        if op = "hnbhd" || op = "ihnbhd" then (st, sp (fmtCoords cells))
+        else match hexNeighbors g cells with
+          | .ok l => (st, sp (fmtIds l))
+          | .error e => (st, fmtErr e)
       else bad
     | _, _, _, _ => bad
   | _ => bad
@@ -220,9 +224,10 @@ def netQuery (t : Net) (nag : Nat) (op : String) (args : List String) : St × St
   | op, [v, ic, r] =>
     match v.toNat?, bool? ic, r.toNat? with
     | some v, some ic, some r =>
-      if v ≥ t.n then bad
-      else if op = "nnbhd" then (keep, sp (fmtIds (t.nbhd v ic r)))
-      else if op = "nnbrs" then (keep, sp (fmtIds (t.cellsContents (t.nbhd v ic r))))
+      if op = "nnbhd" || op = "nnbrs" then
+        match t.nbhdChecked v ic r with
+        | .error e => (keep, fmtErr e)
+        | .ok l => if op = "nnbhd" then (keep, sp (fmtIds l)) else (keep, sp (fmtIds (t.cellsContents l)))
       else bad
     | _, _, _ => bad
   | _, _ => bad
